@@ -49,6 +49,11 @@ inductive OpenInnerStep where
   | flock | initIfEmpty | mmap | readMeta | loadFreelist
   deriving DecidableEq, Repr
 
+/-- one acquisition of one of the five locks of `DBInner` (as found in a function body, in source order) -/
+inductive LockUse where
+  | file | mapRead | mapWrite | readers | data | freelist
+  deriving DecidableEq, Repr
+
 structure ApiFn where
   name : String
   mutates : Bool
